@@ -35,6 +35,7 @@ harness! {
     #[kani::unwind(30)]
     #[kani::stub(alloc::fmt::format, crate::stubs::fmt_stub)]
     #[kani::stub(libm::atan2, crate::stubs::k::atan2_stub)]
+#[kani::stub(f64::rem_euclid, crate::stubs::k::rem_euclid_stub)]
     #[kani::stub(rs1090::decode::flarm::btea, btea_record)]
     #[kani::stub(rs1090::decode::flarm::obscure, obscure_rec)]
     /// every timestamp (all 2^32), every 24-bit address, both address kinds; the block is one concrete value (the key does
